@@ -33,7 +33,7 @@ ASSUMPTIONS = {
         "bounded (never counted as proved): IdxCheck::new + iter on the real code for 3 contigs of length <= 2 (back-up for re-implementations Verus cannot parse)",
     ],
     "C06": [
-        "unverified glue: MergeSkaArray::filter's loop over rows, the `*count >= min_count` test, push_row, mask_ambig mapv_inplace, the returned `removed`; write_fasta's transpose; clap wiring",
+        "MergeSkaArray::filter as a whole (the zip over counts / rows / k-mers, the threshold test, push_row, the assignments after the loop, the --ambig-mask pass, the returned `removed`, update_counts(true) first iff --filter-ambig-as-missing) is checked BOUNDED on 1 split k-mer x 2 samples, lifted into the real crate with HashSet re-bound by name resolution and update_counts stubbed; for more rows it is unverified glue (one iteration of the loop on rows of length <= 3 is the row-step check); write_fasta's transpose and the clap wiring are not decided",
         "R3: a row ArrayView1<u8> re-bound to &Vec<u8> (assumes ndarray yields a row's elements in index order); hashbrown::HashSet re-bound to std HashSet; the second loop of NoAmbigOrConst consumes the set by value (rejected by Verus): only its body is verified",
         "floating point: apply_filters' ceil(samples x min_freq) is checked by Kani with CBMC's IEEE-754 model for samples <= 4",
         "bounded (thorough tier only, never counted as proved): update_counts on a 2x2 table",
